@@ -102,6 +102,15 @@ func IPDatagram(t *rapid.T, kind string, o FrameOpts) []byte {
 	h := wire.IPv4{ID: rapid.Uint16().Draw(t, "ipid"), Flags: uint8(rapid.SampledFrom([]int{0, 2, 2, 2, 4, 6}).Draw(t, "ipfl")),
 		TTL: rapid.Byte().Draw(t, "ttl"), Src: src, Dst: dst, Options: ipOptions(t), TOS: rapid.SampledFrom([]uint8{0, 0, 0x10, 0xb8}).Draw(t, "tos")}
 	var l4 []byte
+	// "<proto>-short": the datagram ends inside (or right before) the transport header, with consistent lengths;
+	// "<proto>-frag": a non-first fragment (offset != 0) carrying arbitrary bytes
+	variant := ""
+	if i := len(kind) - 6; i > 0 && kind[i:] == "-short" {
+		kind, variant = kind[:i], "short"
+	} else if i := len(kind) - 5; i > 0 && kind[i:] == "-frag" {
+		kind, variant = kind[:i], "frag"
+	}
+	defer func() { _ = variant }()
 	switch kind {
 	case "tcp":
 		h.Proto = wire.ProtoTCP
@@ -125,6 +134,19 @@ func IPDatagram(t *rapid.T, kind string, o FrameOpts) []byte {
 		h.Proto = rapid.SampledFrom([]uint8{0, 2, 41, 47, 50, 132, 255}).Draw(t, "proto")
 		l4 = payload
 	}
+	switch variant {
+	case "short":
+		hdr := map[string]int{"tcp": 20, "udp": 8, "icmp": 8}[kind]
+		if len(l4) > hdr {
+			l4 = l4[:hdr]
+		}
+		l4 = l4[:kit.Uniform(t, "l4keep", len(l4))] // 0 .. header size - 1 bytes of transport header
+	case "frag":
+		h.FragOff = uint16(1 + kit.Uniform(t, "fragoff", 0x1fff))
+		if rapid.Bool().Draw(t, "more-frags") {
+			h.Flags |= 1
+		}
+	}
 	return h.Bytes(l4)
 }
 
@@ -133,9 +155,9 @@ func ValidFrame(t *rapid.T, kind string, o FrameOpts) []byte {
 	var body []byte
 	etype := uint16(wire.EtherIPv4)
 	switch kind {
-	case "tcp", "udp", "icmp", "other":
+	case "tcp", "udp", "icmp", "other", "tcp-short", "icmp-short", "udp-short", "tcp-frag", "icmp-frag":
 		body = IPDatagram(t, kind, o)
-	case "ipip-tcp", "ipip-udp", "ipip-icmp", "ipip-other":
+	case "ipip-tcp", "ipip-udp", "ipip-icmp", "ipip-other", "ipip-tcp-short", "ipip-icmp-short", "ipip-udp-short", "ipip-tcp-frag", "ipip-icmp-frag":
 		inner := IPDatagram(t, kind[5:], FrameOpts{DstIP: o.DstIP})
 		levels := rapid.IntRange(1, 3).Draw(t, "ipip-levels")
 		for i := 0; i < levels; i++ {
@@ -188,6 +210,11 @@ func ValidFrame(t *rapid.T, kind string, o FrameOpts) []byte {
 
 var AllKinds = []string{"tcp", "udp", "icmp", "arp", "ipv6", "vlan", "ipip-tcp", "ipip-udp", "ipip-icmp", "ipip-other", "other"}
 
+// OddKinds are built consistently (lengths and checksums right) but lack a complete transport header: the datagram
+// ends inside or before it, or is a non-first fragment - alone or nested in IP-in-IP. For the receive-path check (C06).
+var OddKinds = []string{"tcp-short", "icmp-short", "udp-short", "tcp-frag", "icmp-frag",
+	"ipip-tcp-short", "ipip-icmp-short", "ipip-udp-short", "ipip-tcp-frag", "ipip-icmp-frag"}
+
 // Mutate applies one structural mutation to a frame (offsets assume the frame starts with an Ethernet header iff ethernet).
 // It returns the mutated copy and the name of the operator.
 func Mutate(t *rapid.T, frame []byte, ethernet bool) ([]byte, string) {
@@ -195,6 +222,18 @@ func Mutate(t *rapid.T, frame []byte, ethernet bool) ([]byte, string) {
 	l3 := 0
 	if ethernet {
 		l3 = 14
+	}
+	// in an IP-in-IP chain the mutation applies to a drawn level (outer header, ..., innermost header)
+	chain := []int{l3}
+	for off := l3; len(f) >= off+20 && f[off]>>4 == 4 && f[off]&0x0f >= 5 && f[off+9] == 4; {
+		off += int(f[off]&0x0f) * 4
+		if len(f) < off+1 {
+			break
+		}
+		chain = append(chain, off)
+	}
+	if len(chain) > 1 {
+		l3 = chain[kit.Uniform(t, "ip-level", len(chain))]
 	}
 	has := func(n int) bool { return len(f) >= l3+n }
 	ihl := func() int {
